@@ -82,7 +82,7 @@ def run(tier, replay=None):
                       dict(case=c["id"], verdict=d, files={"main.ms": c["src"]}, stderr=[o["err"] for o in c["obs"]]))
     rep.coverage = dict(**vcov, traces_validated_against_impl=vres["recorded"],
         evaluations=len(cases), distinct_nontrivial=sum(1 for c in cases if any(o["op"] == "call" for o in c["hist"])),
-        rule="GenClos.tla: operation histories over 143 operations (9 closure instances - module level, two calls of one maker, nested maker, shadowing middle function, captured parameter, two iterations of a loop body, made inside a method - x 5 closure kinds (reader, modify-writer, local writer, typed local writer, `or`-fallback reader) x 3 call routes (direct, through a caller owning a same-named local, through a plain caller), owner assignment, is_closure): every single operation, every ordered pair (thorough) or a seeded sample of the pairs (quick), plus seeded -simulate histories up to length 8 (quick) / 12 (thorough); non-trivial = contains at least one closure call; distinct by history; plus GenCapture.tla (exhaustive): 30 syntactic positions of the single use of a captured variable, 8 `modify` target types (optional set / cleared / swapped, strings of other lengths, ...), 5 callback drivers (escaped closures run by map / filter over 4 elements, with call counting) 12 receiver positions and 3 late declarations (the maker declares a same-named variable only after the literals were made) (a captured list / object used only as assignment target, receiver, indexed or dotted operand), each x {module-level same-named variable present, absent}, called directly, through a caller owning a same-named local and through a plain caller after the defining frame is gone",
+        rule="GenClos.tla: operation histories over 143 operations (9 closure instances - module level, two calls of one maker, nested maker, shadowing middle function, captured parameter, two iterations of a loop body, made inside a method - x 5 closure kinds (reader, modify-writer, local writer, typed local writer, `or`-fallback reader) x 3 call routes (direct, through a caller owning a same-named local, through a plain caller), owner assignment, is_closure): every single operation, every ordered pair (thorough) or a seeded sample of the pairs (quick), plus seeded -simulate histories up to length 8 (quick) / 12 (thorough); non-trivial = contains at least one closure call; distinct by history; plus GenCapture.tla (exhaustive): 30 syntactic positions of the single use of a captured variable, 8 `modify` target types (optional set / cleared / swapped, strings of other lengths, ...), 5 callback drivers (escaped closures run by map / filter over 4 elements, with call counting) 12 receiver positions 3 late declarations (the maker declares a same-named variable only after the literals were made), 2 recursion shapes (every level of a plain / tail recursion makes closures over its own parameter) and 2 loop counters spelled like the captured variable (a captured list / object used only as assignment target, receiver, indexed or dotted operand), each x {module-level same-named variable present, absent}, called directly, through a caller owning a same-named local and through a plain caller after the defining frame is gone",
         capture_position_programs=len(cap), enumerated_len_le_2=enumerated, singles=len(singles), pairs_run=len(pairs),
         samples=[dict(history=c["id"], observed=c["obs"][0]["out"]) for c in cases[:: max(1, len(cases) // 3)][:3]],
         states=st["states"] + vres["states"] + g.distinct, transitions=st["transitions"] + vres["transitions"] + g.generated, out_of_model=len(skips),
